@@ -560,7 +560,7 @@ def run_verus(path, rlimit=None, timeout=600):
     objs, junk = parse_json_stream(p.stdout + "\n" + p.stderr)
     diags = [o for o in objs if o.get("$message_type") == "diagnostic"]
     summary = next((o for o in objs if "verification-results" in o), None)
-    return {"cmd": " ".join(cmd), "rc": p.returncode, "diags": diags, "summary": summary, "junk": junk, "wall": wall, "raw": p.stdout[-4000:] + p.stderr[-4000:]}
+    return {"cmd": " ".join(cmd), "path": path, "rc": p.returncode, "diags": diags, "summary": summary, "junk": junk, "wall": wall, "raw": p.stdout[-4000:] + p.stderr[-4000:]}
 
 
 def ob_tags(line):
@@ -591,7 +591,13 @@ def classify(asm, res, contracts, unit):
         code_item = None
         clause_item = None
         for sp in d.get("spans", []):
-            ln = sp["line_start"] - 1
+            # a span inside a std macro (assert!, panic!, unreachable!, ...) is resolved to its call site in the assembled file
+            e = sp
+            while e is not None and not str(e.get("file_name", "")).endswith(os.path.basename(res["path"])) and e.get("expansion"):
+                e = e["expansion"]["span"]
+            if e is None or not str(e.get("file_name", "")).endswith(os.path.basename(res["path"])):
+                continue
+            ln = e["line_start"] - 1
             if ln >= len(asm.origin):
                 continue
             sec, iid = asm.origin[ln]
